@@ -27,7 +27,7 @@ RULES = ["C17.Stable", "C17.Reason", "C17.CloseOnce", "C17.NoHang", "C17.Release
 LIVENESS_RULES = {"C17.NoHang", "C17.Released", "C17.Terminal"}
 CHUNK = 12
 ALL_DEVS = ["OverwriteClosed", "LoopsDoneSilent", "HsRunnerDoneWaits", "StrongRefInConnLoop", "WaitConnectedBlind",
-            "SigOverwriteClosed", "SendCheckThenPark", "ExitDoesNotWake"]
+            "SigOverwriteClosed", "SendCheckThenPark", "ExitDoesNotWake", "GraceNotRearmed"]
 
 
 def tla_set(xs):
@@ -35,7 +35,8 @@ def tla_set(xs):
 
 
 def mc_cfg(path, *, mode="WebRtc", dc=True, traffic=False, devs=(), max_events=1, phases=ALL_PHASES,
-           ev1=ALL_EVENTS, ev2=("Close",), wfc=2, emit=False, liveness=True, answerer=False):
+           ev1=ALL_EVENTS, ev2=("Close",), wfc=2, emit=False, liveness=True, answerer=False, flaps=0,
+           ice_fallback=True):
     props = "PROPERTIES TerminalIsStable" + (" CloseEventually ReportsTerminal LocalEndsClosed NoHang Released"
                                              if liveness else "")
     with open(path, "w") as f:
@@ -49,6 +50,8 @@ CONSTANTS
   MaxEvents = {max_events}
   WfcBudget = {wfc}
   Answerer = {"TRUE" if answerer else "FALSE"}
+  MaxFlaps = {flaps}
+  IceFailFallback = {"TRUE" if ice_fallback else "FALSE"}
   PhaseSet = {tla_set(phases)}
   Ev1Set = {tla_set(ev1)}
   Ev2Set = {tla_set(ev2)}
@@ -71,6 +74,8 @@ CONSTANTS
   MaxEvents = 9
   WfcBudget = 2
   Answerer = {"TRUE" if answerer else "FALSE"}
+  MaxFlaps = 3
+  IceFailFallback = TRUE
   PhaseSet = {{"renegotiating"}}
   Ev1Set = {{}}
   Ev2Set = {{}}
@@ -95,7 +100,7 @@ def emit_scenarios(ck, label, **kw):
     ck.add_tlc(res, f"emit:{label}")
     seen, out = set(), []
     for r in vlib.read_ndjson(sink):
-        key = (r["mode"], r["dc"], r["phase"], tuple(r["evs"]), tuple(r["ats"]))
+        key = (r["mode"], r["dc"], r["phase"], tuple(r["evs"]), tuple(r["ats"]), r.get("flaps", 0))
         if key not in seen:
             seen.add(key)
             out.append(r)
@@ -122,7 +127,7 @@ def to_harness(rows, start_id, attempts):
             continue    # slow first events: racing second event only from the harness thread (each miss costs ~30 s)
         for at2 in at2s:
             out.append({"id": start_id + len(out), "kind": "c17", "mode": r["mode"], "victim": "A", "phase": r["phase"],
-                        "ev1": r["evs"][0], "ev2": ev2, "at2": at2,
+                        "ev1": r["evs"][0], "ev2": ev2, "at2": at2, "flaps": int(r.get("flaps", 0)),
                         "attempts": attempts if at2.startswith("pre:") else 1, "dc": bool(r["dc"])})
     return out
 
@@ -201,7 +206,7 @@ def signature(sc, v, endpoint="victim"):
     """Structural signature of one broken rule: the rule, where it was observed, and the class of events."""
     rule, t, site, observed, x = v
     sig = {"sub": "lifecycle", "rule": rule, "mode": sc.get("mode", "WebRtc"), "phase": sc.get("phase"), "t": t,
-           "endpoint": endpoint}
+           "endpoint": endpoint, "flaps": int(sc.get("flaps", 0))}
     if t in ("pub", "sig"):
         sig["site"] = site
         sig["observed"] = observed
@@ -223,7 +228,9 @@ def plan(tier):
         return {
             "design": [("single", dict(max_events=1, wfc=1, liveness=True,
                                        phases=["offerMade", "checking", "dtlsHandshaking", "sctpConnecting",
-                                               "channelsOpen"]))],
+                                               "channelsOpen"])),
+                       ("flap", dict(max_events=1, wfc=0, liveness=True, phases=["channelsOpen"],
+                                     ev1=["SocketLoss", "Close", "PeerCloseNotify"], flaps=1, ice_fallback=False))],
             "emit": [("single", dict(max_events=1, wfc=0)),
                      ("media", dict(max_events=1, wfc=0, traffic=True, phases=["mediaFlowing"])),
                      ("pairs", dict(max_events=2, wfc=0, phases=["channelsOpen"],
@@ -233,6 +240,8 @@ def plan(tier):
                                      ev2=["Close"])),
                      ("blocked", dict(max_events=1, wfc=0, phases=["senderBlocked"],
                                       ev1=["Close", "IceStop", "PeerCloseNotify", "PeerSctpAbort", "SocketLoss"])),
+                     ("flap", dict(max_events=1, wfc=0, phases=["channelsOpen"], ev1=["SocketLoss"], flaps=1,
+                                   ice_fallback=False)),
                      ("rtp", dict(max_events=1, wfc=0, mode="Rtp", dc=False, phases=["offerMade", "channelsOpen"],
                                   ev1=["Close", "Drop", "IceStop"])),
                      ("srtp", dict(max_events=1, wfc=0, mode="Srtp", dc=False, phases=["channelsOpen"],
@@ -242,6 +251,8 @@ def plan(tier):
     return {
         "design": [("single", dict(max_events=1, wfc=2, liveness=True)),
                    ("media", dict(max_events=1, wfc=1, liveness=True, traffic=True, phases=["mediaFlowing"])),
+                   ("flap", dict(max_events=1, wfc=1, liveness=True, phases=["channelsOpen", "renegotiating"],
+                                 flaps=2, ice_fallback=False)),
                    ("answerer", dict(max_events=1, wfc=1, liveness=True, answerer=True,
                                      phases=["created", "offerMade", "checking", "dtlsHandshaking", "sctpConnecting",
                                              "channelsOpen"])),
@@ -255,6 +266,11 @@ def plan(tier):
                  ("pairs", dict(max_events=2, wfc=0, ev2=["Close", "Drop"])),
                  ("mediapairs", dict(max_events=2, wfc=0, traffic=True, phases=["mediaFlowing"], ev2=["Close"])),
                  ("sender", dict(max_events=2, wfc=0, phases=["channelsOpen"], ev1=["BlockedSender"], ev2=["Close"])),
+                 ("flap", dict(max_events=1, wfc=0, phases=["channelsOpen", "renegotiating"],
+                               ev1=["Close", "Drop", "PeerCloseNotify", "PeerSctpAbort", "IceStop", "SocketLoss"],
+                               flaps=2, ice_fallback=False)),
+                 ("flapmedia", dict(max_events=1, wfc=0, traffic=True, phases=["mediaFlowing"],
+                                    ev1=["Close", "PeerCloseNotify", "SocketLoss"], flaps=1, ice_fallback=False)),
                  ("blocked", dict(max_events=2, wfc=0, phases=["senderBlocked"],
                                   ev1=["Close", "IceStop", "PeerCloseNotify", "PeerSctpAbort", "PeerSctpShutdown",
                                        "SocketLoss"], ev2=["Close"])),
@@ -301,6 +317,8 @@ def run(tier):
     for (label, kw), (rows, _res) in zip(pl["emit"], emitted_rows):
         if label in ("pairs", "mediapairs", "sender"):
             rows = [r for r in rows if len(r["evs"]) == 2]
+        if label in ("flap", "flapmedia"):
+            rows = [r for r in rows if r.get("flaps", 0) >= 1]
         hs = to_harness(rows, nid, pl["attempts"])
         nid += len(hs)
         emitted[label] = len(hs)
@@ -388,7 +406,7 @@ def run(tier):
                 peer_validated += 1
                 continue
             if r[-1].get("hit") and not [v for v in broken if v[0] != "EXT"]:
-                nontrivial.add((sc["mode"], sc["phase"], sc["ev1"], sc["ev2"], sc["at2"], sc.get("rt", "multi")))
+                nontrivial.add((sc["mode"], sc["phase"], sc["ev1"], sc["ev2"], sc["at2"], sc.get("rt", "multi"), sc.get("flaps", 0)))
 
     reported, confirmed = set(), {}
     for mode, dc, r, v, other in findings:
@@ -498,12 +516,13 @@ def selftest():
     expect = {"OverwriteClosed": "TerminalIsStable", "LoopsDoneSilent": "ReportsTerminal",
               "HsRunnerDoneWaits": "Released", "StrongRefInConnLoop": "LocalEndsClosed",
               "WaitConnectedBlind": "NoHang", "SigOverwriteClosed": "TerminalIsStable",
-              "SendCheckThenPark": "NoHang", "ExitDoesNotWake": "NoHang"}
+              "SendCheckThenPark": "NoHang", "ExitDoesNotWake": "NoHang", "GraceNotRearmed": "ReportsTerminal"}
     ok = True
     for dev, prop in expect.items():
         cfg = os.path.join(vlib.SPEC, f"MC_Lifecycle_self_{dev}.gen.cfg")
         mc_cfg(cfg, devs=[dev], max_events=1, wfc=1,
-               phases=["offerMade", "dtlsHandshaking", "channelsOpen", "senderBlocked"])
+               phases=["offerMade", "dtlsHandshaking", "channelsOpen", "senderBlocked"],
+               flaps=1 if dev == "GraceNotRearmed" else 0, ice_fallback=dev != "GraceNotRearmed")
         res = vlib.tlc("MC_Lifecycle", os.path.basename(cfg), workers=6, timeout=1200, tag=f"self_{dev}")
         os.remove(cfg)
         got = " ".join(res["errors"]) + " ".join(res["raw_tail"])
